@@ -113,6 +113,9 @@ def run_dist(spec: dict, backend: str, strategy: str, max_threads: int = 2) -> d
         try:
             res["outcome"] = _outcome(go)
             res["root_retries"] = holder["inv"].num_retries if "inv" in holder else None
+            # the caller has its answer; members of a group that were submitted but not yet executed still run
+            # as long as a runner is alive: body executions are compared once everything submitted is final
+            res["drained"] = sim.drain()
         finally:
             sim.runner.stop_runner_loop()
 
@@ -261,6 +264,8 @@ def run(ctx: Ctx) -> None:
                 "schedule (thorough: 1 and 2 slots): value / exception class+args at the caller, body executions per node "
                 "and num_retries compared; leaf programs also against the statement's retry accounting")
     ctx.assume("group results are combined with an order-insensitive sum (distributed groups yield in completion order)")
+    ctx.assume("body executions of the distributed run are counted after the runner has finished everything that was submitted "
+               "(the caller's outcome is taken when the caller gets it)")
     ctx.assume("each .result is read once (re-reading a failed sync invocation re-runs the body: outside the programs)")
     ctx.assume("exception arguments are compared through repr()")
 
